@@ -9,18 +9,43 @@ from harness import common as C
 
 THEOREMS = 'Properties/C14.v'
 CLAIM = dict(
-    text='Coq theorems about Model/Sample.v (for every d, mode sizes, ranks, sample count m and EVERY generator, '
-         'the generator being an oracle that receives the probability vector): the conditional probabilities '
-         'handed to choice along any drawn multi-index multiply to entry/total for sample on a non-negative tensor '
-         '(exact formula with unsert > 0) and to entry^2/||Y||^2 for sample_square given the orthogonality contract '
-         'of orthogonalize(Y, 0); every handed vector is a distribution; all samplers return arrays of the requested '
-         'shape inside the bounds; unique squared sampling returns distinct rows and its restart loop terminates; '
-         'sample_lhs uses every index floor(m/n) or ceil(m/n) times; sample_tt has the advertised block layout.',
+    text='Coq theorems about Model/Sample.v, each for every d >= 1, all mode sizes >= 1, ranks, sample counts m and EVERY '
+         'generator (the generator is an oracle that receives the probability vector; contract: choice(n, p=p) < len(p), '
+         'choice(k, s, replace=False) = s distinct indices < k, shuffle = a permutation), over every number structure '
+         'with the ring laws, a/b = a*(1/b), b*(1/b) = 1, decidable equality and an order test compatible with + '
+         '(instance proved: Qc; the two non-negativity theorems also use a/b >= 0 and a*a >= 0). '
+         '(1) C14_sample_chain: for a non-negative TT-tensor and unsert u >= 0, if sample returns, there are m rows, every '
+         'drawn multi-index is inside the bounds, each of the d vectors handed to choice sums to 1 and their entries '
+         'along the multi-index multiply to entry/total when u = 0, and satisfy the exact formula '
+         'prod*marg0 = ((marg0+u)/(total+n0*u))*entry for any u. '
+         '(2) C14_sample_in_bounds, C14_sample_probs_nonneg: shape [m, d], bounds and non-negative entries of every handed '
+         'vector for ANY (signed) tensor; C14_sample_returns: with unsert = 0, a non-negative tensor of non-zero total '
+         'and a generator that never returns an index of probability zero, sample does not raise. '
+         '(3) C14_square_chain (+ _scaled, _terminates): given the orthogonality contract of orthogonalize(Y, 0) (cores '
+         '1..d-1 with orthonormal rows; Y = c*Z entrywise), sample_square returns m rows inside the bounds, pairwise '
+         'distinct when unique, all taken from the last attempt, and every row drawn in every attempt (restarts '
+         'included) has d distributions whose entries along the row multiply to entry^2/||Z||^2 = entry^2/||Y||^2; '
+         'the restart loop never runs out of fuel; C14_square_probs_nonneg: all handed vectors have non-negative entries; '
+         'C14_square_returns: with ||Z||^2 <> 0 and a generator that never returns an index of probability zero the '
+         'only exception left is the ValueError of the unique-rows restart logic. '
+         '(4) C14_sample_lhs_shape / C14_lhs_counts: sample_lhs returns [m, d] inside the bounds and uses every index of '
+         'mode i floor(m/n_i) times, or floor+1 = ceil times when n_i does not divide m. '
+         '(5) C14_sample_rand_shape: shape and bounds; ValueError exactly for d = 0; C14_sample_rand_poi_shape: shape '
+         '[m, d], entry (j, i) is a value returned by uniform(a_i, b_i). '
+         '(6) C14_tt_layout / C14_tt_bounds: sample_tt returns idx = block offsets (d+1 entries, 0 .. number of rows), '
+         'idx_many = number of right samples, block i = n_i x lhs(prefix) x lhs(suffix) with row (v*len_1+a)*len_2+c '
+         '= L1[a] ++ [v] ++ L2[c]; all rows inside the bounds. '
+         'Not proved (validated numerically only): that orthogonalize meets its contract (property C04; residual checked '
+         'on every recorded call), progress of sample with unsert > 0 (a zero marginal slice can then be drawn and the next '
+         'conditional is 0/0: ValueError, modelled), statistical behaviour of the real generator '
+         '(chi-square in the search).',
     note='The model is tied to sample.py on every run by an auditing numpy Generator subclass passed as `seed`: every '
          'probability vector it receives is compared with the model (Qc, exact rationals, 1e-12), every returned array '
          'exactly, with the oracle answers replayed by call number; forced (adversarial) answers reach every '
-         'multi-index including zero-probability ones. float_cf of sample_square is not modelled.',
-    technique='Coq proof (telescoping of partial products against right marginals; induction over cores) + '
+         'multi-index including zero-probability ones. float_cf of sample_square is not modelled. The theorems are '
+         'statements about exact arithmetic; in floats they hold up to rounding (checked to 1e-10 by the search).',
+    technique='Coq proof (telescoping of partial products against right marginals; isometry of row-orthonormal cores; '
+              'induction over cores; permutation / counting lemmas for LHS; offsets of concatenated blocks) + '
               'audited-generator correspondence + exhaustive per-multi-index product check on the implementation')
 TRUSTED = ['Coq 8.16.1 kernel + vm_compute (case evaluation only)',
            'hand-written model Model/Sample.v tied to sample.py by the audited-generator correspondence',
@@ -421,13 +446,13 @@ def corr_square(R, ctx, tn):
         unique = rng.random() < 0.6
         m = rng.choice([1, 2, 3])
         m_fact = rng.choice([1, 2, 5]) if unique else 5
-        max_rep = rng.choice([0, 1, 2]) if unique else 100
+        max_rep = rng.choice([-2, 0, 1, 2]) if unique else 100
         if t % 6 == 5:
             # tiny support: the restart loop and its ValueError exit
             Y = [np.zeros((1, n, 1)) for n in [rng.randint(2, 3) for _ in range(d)]]
             for G in Y:
                 G[0, rng.randrange(G.shape[1]), 0] = float(rng.choice([-2, 1, 3]))
-            unique, m, m_fact, max_rep = True, rng.choice([2, 3]), 1, rng.choice([-1, 0, 1])
+            unique, m, m_fact, max_rep = True, rng.choice([2, 3]), 1, rng.choice([-3, -2, -1, 0, 1])
         forced = (not unique) and rng.random() < 0.3
         g = Aud(rng.randrange(2 ** 31), force=uniform_force(rng) if forced else None)
         I, err, rec = run_square(tn, Y, m, unique, m_fact, max_rep, g)
@@ -812,6 +837,11 @@ def oracle_unique(tn, Y, m, seed):
         return f
     if len({tuple(r) for r in np.asarray(I).tolist()}) != m:
         return dict(what='sample_square(unique=True) returned repeated rows', input=inp, got=np.asarray(I).tolist())
+    # a tensor that vanishes by cancellation between cores (||Y|| at rounding level of prod ||G_k||) defines no
+    # distribution: the property says nothing there (the code then samples the rounding noise of orthogonalize)
+    scale = float(np.prod([np.linalg.norm(G) for G in Y]))
+    if not np.sqrt((A ** 2).sum()) > 1e-9 * scale:
+        return None
     if (np.abs(A[tuple(np.asarray(I).T)]) <= 1e-12 * max(1.0, np.abs(A).max())).any():
         return dict(what='sample_square drew a multi-index whose entry is zero', input=inp, got=np.asarray(I).tolist())
     return None
